@@ -180,6 +180,8 @@ structure State where
   dirty : List Addr := []
   /-- candidates chosen by the last `gcSelect` (gc index entries, in iteration order) -/
   cands : List (GcKey × Nat) := []
+  /-- `target` of the run in progress: `gcTarget()` is evaluated once, at the start of `collectGarbage` -/
+  runTarget : Nat := 0
 deriving Repr
 
 inductive Err
@@ -242,26 +244,31 @@ def setGC (tx : Tx) (root : Option Addr) (rootBin : Nat) : Except (Err × Tx) Tx
         | some c => c + 1
       .ok ((tx.inBatch (.gcPut key cnt)).addChange 1)
 
+/-- the root part of `setPin`: the root's gc entry loses one chunk (`gcIndex.DeleteInBatch` when
+    `GCounter = 1`, otherwise a **direct** `gcIndex.Put`), and `gcSizeChange--` whenever the root has
+    an access entry — even if no gc entry was found -/
+def setPinRoot (tx : Tx) (root : Option Addr) : Except (Err × Tx) Tx :=
+  match root with
+  | none => .ok tx
+  | some r =>
+    match SMap.get r tx.db.access with
+    | none => .ok tx
+    | some t =>
+      match SMap.get r tx.db.data with
+      | none => .error (.notFound, tx)
+      | some rd =>
+        match SMap.get (⟨t, rd.binID, r⟩ : GcKey) tx.db.gc with
+        | none => .ok (tx.addChange (-1))
+        | some c =>
+          if c = 1 then .ok ((tx.inBatch (.gcDel ⟨t, rd.binID, r⟩)).addChange (-1))
+          else .ok ((tx.direct (.gcPut ⟨t, rd.binID, r⟩ (dec64 c))).addChange (-1))
+
 /-- `setPin(batch, item, rootItem)` -/
 def setPin (tx : Tx) (a : Addr) (root : Option Addr) : Except (Err × Tx) Tx :=
   let pc := (SMap.get a tx.db.pin).getD 0
-  let rootStep : Except (Err × Tx) Tx := match root with
-    | none => .ok tx
-    | some r =>
-      match SMap.get r tx.db.access with
-      | none => .ok tx
-      | some t =>
-        match SMap.get r tx.db.data with
-        | none => .error (.notFound, tx)
-        | some rd =>
-          let key : GcKey := ⟨t, rd.binID, r⟩
-          let tx := match SMap.get key tx.db.gc with
-            | none => tx
-            | some c => if c = 1 then tx.inBatch (.gcDel key) else tx.direct (.gcPut key (dec64 c))
-          .ok (tx.addChange (-1))
-  match rootStep with
+  match setPinRoot tx root with
   | .error e => .error e
-  | .ok tx => .ok (tx.inBatch (.pinPut a (pc + 1)))
+  | .ok tx' => .ok (tx'.inBatch (.pinPut a (pc + 1)))
 
 /-- `setUnpin(batch, item, rootItem)` -/
 def setUnpin (tx : Tx) (a : Addr) (root : Option Addr) : Except (Err × Tx) Tx :=
@@ -329,27 +336,26 @@ def setRemove (tx : Tx) (a : Addr) (root : Option Addr) : Except (Err × Tx) Tx 
                         else (tx.inBatch (.accDel r)).inBatch (.gcDel key)
               .ok (tx.addChange (-1))
 
+/-- the common part of `putRequest`/`putUpload` for a new chunk: `StoreTimestamp = now()`, next bin
+    id, `retrievalDataIndex.PutInBatch`; returns the bin id -/
+def storeNew (po : Addr → Nat) (tx : Tx) (a : Addr) (data : Bytes) : Nat × Tx :=
+  ((incBinID tx.now.2 (po a)).1,
+   (incBinID tx.now.2 (po a)).2.inBatch (.dataPut a ⟨(incBinID tx.now.2 (po a)).1, tx.now.1, data⟩))
+
 /-- `putRequest` (exists?, tx) -/
 def putRequest (po : Addr → Nat) (tx : Tx) (a : Addr) (data : Bytes) (root : Option Addr) (pin : Bool) :
     Except (Err × Tx) (Bool × Tx) :=
   if SMap.has a tx.db.data then .ok (true, tx)
   else
-    let (ts, tx) := tx.now
-    let (bin, tx) := incBinID tx (po a)
-    let tx := tx.inBatch (.dataPut a ⟨bin, ts, data⟩)
-    let rootBin := if root = some a then bin else 0
-    let r := if pin then setPin tx a root else setGC tx root rootBin
-    match r with
+    let rootBin := if root = some a then (storeNew po tx a data).1 else 0
+    match (if pin then setPin (storeNew po tx a data).2 a root
+           else setGC (storeNew po tx a data).2 root rootBin) with
     | .error e => .error e
-    | .ok tx => .ok (false, tx)
+    | .ok tx' => .ok (false, tx')
 
 /-- `putUpload` -/
 def putUpload (po : Addr → Nat) (tx : Tx) (a : Addr) (data : Bytes) : Bool × Tx :=
-  if SMap.has a tx.db.data then (true, tx)
-  else
-    let (ts, tx) := tx.now
-    let (bin, tx) := incBinID tx (po a)
-    (false, tx.inBatch (.dataPut a ⟨bin, ts, data⟩))
+  if SMap.has a tx.db.data then (true, tx) else (false, (storeNew po tx a data).2)
 
 /-- result of finishing an operation -/
 structure Fin where
@@ -429,21 +435,33 @@ def finish (s : State) (f : Fin) (dirty : List Addr) (out : Out) : Res :=
                    dirty := dirty },
     out := out, writes := f.writes, trig := f.trigger }
 
+/-- the fast path of `put`: a single chunk in a non-pinning mode that is already stored returns
+    before the lock is taken (no batch, no dirty logging) -/
+def putFast (s : State) (mode : PutMode) (chs : List (Addr × Bytes)) : Bool :=
+  match chs with
+  | [(a, _)] => mode != PutMode.requestPin && mode != PutMode.uploadPin && SMap.has a s.db.data
+  | _ => false
+
+/-- `binIDs.PutInBatch` for every bin touched by the call (Go iterates a map; order is irrelevant
+    inside one batch, the model uses ascending po) -/
+def addBins (tx : Tx) : Tx :=
+  tx.bins.foldl (fun (t : Tx) (p : Nat × Nat) => t.inBatch (.binPut p.1 p.2)) tx
+
+/-- `put` under the lock: how the call finishes and what it returns -/
+def putBody (po : Addr → Nat) (s : State) (mode : PutMode) (root : Option Addr) (chs : List (Addr × Bytes)) :
+    Fin × Out :=
+  if mode == PutMode.invalid then (abort (Tx.start s), .err .invalidMode)
+  else
+    match putLoop po mode root (Tx.start s) [] chs [] with
+    | .error (e, tx) => (abort tx, .err e)
+    | .ok (tx, ex) => (commit s.capacity (addBins tx), .exist ex)
+
 /-- `DB.Put` -/
 def put (po : Addr → Nat) (s : State) (mode : PutMode) (root : Option Addr) (chs : List (Addr × Bytes)) : Res :=
-  let fast : Bool := match chs with
-    | [(a, _)] => mode != PutMode.requestPin && mode != PutMode.uploadPin && SMap.has a s.db.data
-    | _ => false
-  if fast then { st := s, out := .exist [true], writes := [] }
+  if putFast s mode chs then { st := s, out := .exist [true], writes := [] }
   else
-    let dirty : List Addr := if s.gcRunning then s.dirty ++ chs.map (fun c => c.1) else s.dirty
-    if mode == PutMode.invalid then finish s (abort (Tx.start s)) dirty (.err .invalidMode)
-    else
-      match putLoop po mode root (Tx.start s) [] chs [] with
-      | .error (e, tx) => finish s (abort tx) dirty (.err e)
-      | .ok (tx, ex) =>
-        let tx : Tx := tx.bins.foldl (fun (t : Tx) (p : Nat × Nat) => t.inBatch (.binPut p.1 p.2)) tx
-        finish s (commit s.capacity tx) dirty (.exist ex)
+    finish s (putBody po s mode root chs).1
+      (if s.gcRunning then s.dirty ++ chs.map (fun c => c.1) else s.dirty) (putBody po s mode root chs).2
 
 /-- loop of `set` -/
 def setLoop (mode : SetMode) (root : Option Addr) : Tx → List Addr → Except (Err × Tx) Tx
@@ -459,14 +477,18 @@ def setLoop (mode : SetMode) (root : Option Addr) : Tx → List Addr → Except 
     | .error e => .error e
     | .ok tx' => setLoop mode root tx' rest
 
-/-- `DB.Set` -/
-def set (s : State) (mode : SetMode) (root : Option Addr) (addrs : List Addr) : Res :=
-  let dirty := if s.gcRunning then s.dirty ++ addrs else s.dirty
-  if mode == SetMode.invalid then finish s (abort (Tx.start s)) dirty (.err .invalidMode)
+/-- `set` under the lock -/
+def setBody (s : State) (mode : SetMode) (root : Option Addr) (addrs : List Addr) : Fin × Out :=
+  if mode == SetMode.invalid then (abort (Tx.start s), .err .invalidMode)
   else
     match setLoop mode root (Tx.start s) addrs with
-    | .error (e, tx) => finish s (abort tx) dirty (.err e)
-    | .ok tx => finish s (commit s.capacity tx) dirty .ok
+    | .error (e, tx) => (abort tx, .err e)
+    | .ok tx => (commit s.capacity tx, .ok)
+
+/-- `DB.Set` -/
+def set (s : State) (mode : SetMode) (root : Option Addr) (addrs : List Addr) : Res :=
+  finish s (setBody s mode root addrs).1
+    (if s.gcRunning then s.dirty ++ addrs else s.dirty) (setBody s mode root addrs).2
 
 /-- `updateGC(item)`: `bin = 0` means the item carries no BinID (root given by context).
     Returns the writes (empty when the function returns before `Commit`). -/
@@ -554,7 +576,7 @@ def gcSelect (s : State) : Res :=
     let target := gcTarget s.capacity
     if s.db.gcSize ≤ target then { st := { s with dirty := [] }, out := .gcIdle, writes := [] }
     else
-      { st := { s with gcRunning := true, dirty := [],
+      { st := { s with gcRunning := true, dirty := [], runTarget := target,
                        cands := selectCands s.db.gcSize target s.db.gc 0 },
         out := .gcSel, writes := [] }
 
@@ -591,7 +613,7 @@ def evictLoop (pyr : Addr → Option (List (Addr × Nat))) (dirty : List Addr) :
 def gcEvict (s : State) (pyr : Addr → Option (List (Addr × Nat))) : Res :=
   if !s.gcRunning then { st := s, out := .nogc, writes := [] }
   else
-    let target := gcTarget s.capacity
+    let target := s.runTarget
     let (tx, n, recycled, visited) := evictLoop pyr s.dirty (Tx.start s) s.cands 0 [] []
     let gcSize := tx.db.gcSize
     let tx : Tx := recycled.foldl (fun (t : Tx) (e : GcKey × Nat) =>
